@@ -126,6 +126,18 @@ def enumerate_attribute_edits(obj):
         for k, v in vals.items():
             out.append(["pf", k, v])
         mods = [(i, m) for i, m in enumerate(obj.modules) if m is not None]
+        for pi, pat in enumerate(obj.patterns):
+            if pat is None:
+                continue
+            if type(pat).__name__ == "PatternClone":
+                for f, v in (("source", 1), ("flags_PFFF", 9), ("x", -40), ("y", 41)):
+                    out.append(["clonef", pi, f, v])
+                continue
+            for f, v in (("name", "p\u00e4t"), ("y_size", 48), ("flags_PFLG", 3), ("icon", "5a" * 32), ("fg_color", [9, 8, 7]), ("bg_color", [1, 2, 3]), ("flags_PFFF", 0x18), ("x", -64), ("y", 96)):
+                out.append(["patf", pi, f, v])
+            cells = {(0, 0): [5, 9, 0x0102, 0x0304, 0x0506], (pat.lines - 1, pat.tracks - 1): [0, 0, 0x01FF, 0, 0], (pat.lines // 2, 0): [128, 129, 0xFFFF, 0xFFFF, 0xFFFF]}
+            for (ln, tr), c in cells.items():
+                out.append(["cell", pi, ln, tr, c])
     else:
         mods = [(-1, obj.module)]
     common = {"name": "n\u00e4me-\u266b", "flags": 0x4051 | 0x80, "mod_finetune": -200, "mod_relative_note": 99, "mod_scale": 333, "color": [1, 2, 3], "midi_in_always": True, "midi_in_channel": 9,
@@ -255,7 +267,7 @@ def run_shard(ctx, desc):
             stride = desc["stride"]
             n = 0
             for i, e in enumerate(all_edits):
-                if i % stride != desc["phase"] % stride:
+                if i % stride != desc["phase"] % stride and e[0] not in ("cell", "patf", "clonef"):
                     continue
                 case = {"src": "fixture", "file": rel, "edits": [e]}
                 ctx.case()
